@@ -91,7 +91,11 @@ def run_scheduled(case):
         for f in os.listdir(rec):
             key = f.split("-")[1]
             with open(os.path.join(rec, f)) as fh:
-                done[key] = float(fh.read()) - t0
+                txt = fh.read()
+            try:
+                done[key] = float(txt) - t0
+            except ValueError:
+                pass  # the worker was killed while writing its completion record: it did not finish
         rep, order = sched.lcd_repr(dg)
         cp = guard(dg.get_critical_path, what="get_critical_path")
         edges = {(int(a), int(b)): float(d["latency"]) for a, b, d in dg.dg.edges(data=True) if a == int(a)}
